@@ -206,4 +206,17 @@ CLAIMED["C15"] = dict(
     technique="TLA+ symbolic ADT + TLC invariants + TLC trace validation of interned results with a math/big Edwards reference and the stdlib verifier",
     ref="5/C15")
 
+CLAIMED["C16"] = dict(
+    text="Memory.tla states the ownership discipline over abstract regions (argument backing arrays incl. spare capacity, slices "
+         "handed out earlier) with, per object kind, the call alphabet and the regions each call is given and hands out; TLC "
+         "shows the frame condition on the intended design and its violation under the two named deviations. Every call "
+         "history TLC generates (13 object kinds: the four request states, four issuers, attester, generic batch, both key-"
+         "blinding forks, request codecs; all histories of length 2, thorough 3) is executed twice on the real library inside "
+         "guarded arenas with different spare-capacity fills, all tracked regions compared with their snapshots after every "
+         "call; TLC validates the recorded events: no tracked region changed, deterministic results independent of the fill, "
+         "tracked regions cover what the model lists for the call.",
+    note="Memory is observed around each call, not below the API. Integer (big.Int) arguments and results are tracked by value.",
+    technique="TLA+ ownership/frame spec + TLC-generated call histories replayed in guarded arenas + TLC trace validation of region snapshots",
+    ref="5/C16")
+
 NOT_YET = "check not built yet in this round (see DESIGN.md section 11 for the build order); no claim is made"
